@@ -27,7 +27,7 @@ type C12Key struct {
 	// DSplits: byte positions (anywhere, also inside a multi-byte character) at which a chunk's data is
 	// additionally split into separate data events (validator route only)
 	DSplits []int `json:"dsplits,omitempty"`
-	Pad   int    `json:"pad,omitempty"` // extra leading-zero bytes (CBE var/big forms), separators (CTE)
+	Pad     int   `json:"pad,omitempty"` // extra leading-zero bytes (CBE var/big forms), separators (CTE)
 }
 
 type C12Case struct {
